@@ -569,6 +569,19 @@ def gen_model(r, ndates=4, polset=None, size=None, opts=None):
                     g.arc(gw, g.reservoir(), type_="PullArc", cap=rx.choice([None, F(4), F(9)]))
                 finally:
                     g.r, g.rp = keep
+    if opts.get("parallel"):
+        # two (or three) arcs between the same pair of nodes: a main and a relief pipe, two intakes of one abstraction ...
+        # (a stream of its own: the rest of the model is the one the seed gives without this option)
+        rpar = random.Random(f"parallel:{r.random()}")
+        for a in list(g.arcs):
+            if a["type_"] in ("Arc", "PullArc") and rpar.random() < opts["parallel"]:
+                for k in range(rpar.choice([1, 1, 2])):
+                    twin = dict(a)
+                    twin["name"] = f"{a['name']}-par{k}"
+                    twin["capacity"] = rpar.choice([F(4), F(10), F(3, 2), UNBOUNDED])
+                    if a["capacity"] == UNBOUNDED and rpar.random() < 0.7:
+                        a["capacity"] = rpar.choice([F(10), F(6), F(25)])
+                    g.arcs.append(twin)
     if opts.get("arc_mix"):
         mix_arcs(g, r, opts["arc_mix"])
     if opts.get("shuffle", True) and r.random() < 0.5:
